@@ -415,3 +415,19 @@ def fork_shape_cases(seed, shard, nshards):
             continue
         yield tag, {"defn": ps.to_json(ast), "k": 1, "pick": None,
                     "sched": seed * 1000 + i}
+
+
+def break_branch_cases(seed, shard, nshards, fork_continuations):
+    """gen.break_branch_shapes() as cases (complete sets, k=2).  With
+    fork_continuations=False only the members whose continuing branch is a
+    plain event: a switch whose other branch *starts* with a fork is emitted
+    as a one-case switch followed by the fork, which the reference semantics
+    reads as "always break" (outside fragment F, not judged by C01/C02/C05;
+    loop extraction is fine on all of them, so C07 runs the whole family)."""
+    for i, (tag, ast) in enumerate(gen.break_branch_shapes()):
+        if not fork_continuations and not tag.startswith("contev"):
+            continue
+        if i % nshards != shard:
+            continue
+        yield tag, {"defn": ps.to_json(ast), "k": 2, "pick": None,
+                    "sched": seed * 1000 + i}
